@@ -43,3 +43,13 @@ add("C17", "fault_enumeration",
     "Held on the executions explored: attempts == model for every enumerated script (all scripts up to MaxRetries+2 for MaxRetries<=3, sampled to 10), every wait == min(Initial*Factor^(k-1), Max), cancellation at every wait index returned the context error with no further attempt, Validate clamped every grid/extreme configuration idempotently, no retry option => exactly one attempt; end to end the servers counted the same attempts.",
     "Transient classes not named by the statement (response-header timeout, http.Client.Timeout, truncated body) are observed and reported, not judged.",
     "DESIGN.md section 4 C17")
+add("C04", "exploration",
+    "runtime monitoring: model-based histories by raw peers against 12 configurations compared step by step with a reference session state machine and Server.GetActiveSessions(); concurrent histories checked for linearizability with porcupine; strace getrandom(2) monitor for the CSPRNG clause",
+    "Held on the executions explored: every step's status and session header equalled the reference state machine, the reported live set equalled the model after every step, DELETE and a newer GET ended the open stream, concurrent init/use/DELETE/list histories were linearizable, stateless answers did not depend on any prefix, and every issued id was unique, visible ASCII, >= 128 bits and the hex of bytes returned by a getrandom(2) call of the server process.",
+    "CSPRNG clause assumes ids are a reversible encoding of kernel bytes (an id derived by hashing would be reported). The hourly expiry sweep is not driven.",
+    "DESIGN.md section 4 C04")
+add("C11", "exploration",
+    "runtime monitoring with controlled interleavings: a yield-point controller (get.H / get.T / get.E hooks) parks the new and the old stream handler at every gap and places a send after 'new headers received'; free-running reconnect storms with seeded delays; raw peers identify which stream carried each nonce",
+    "Held on the executions explored: in every enumerated ordering of old-stream teardown, new-stream registration and send (send before store when realisable, after store before the old delete, after the old delete, old stream closed by its peer before/while the new one registers), in reopen chains and in reconnect storms, every send made after the new stream's headers were received succeeded and arrived on that stream only; a stream's exit removed only itself.",
+    "A schedule the implementation makes impossible (headers visible before the table store) is reported as not realisable. Delivery is awaited up to 5 s on loopback.",
+    "DESIGN.md section 4 C11")
